@@ -393,7 +393,8 @@ pub fn run(args: &Args) {
             check_table(&mut rep, &mut ctx, t, &inputs, "default", "exhaustive");
         }
     }
-    rep.exhaustive = args.shards == 1;
+    // Every shard enumerates its slice (tables i % shards == shard) completely.
+    rep.exhaustive = true;
 
     // ---- random larger alphabets
     let n_rand = args.budget(40_000, 1_000_000);
